@@ -77,6 +77,11 @@ pub fn disarm() -> (u64, Vec<&'static str>, Option<(u64, &'static str)>) {
     (SEEN.load(Ordering::SeqCst), names, FIRED.lock().unwrap().take())
 }
 
+/// Number of points passed since arming (lets the harness split operation phase / commit phase).
+pub fn seen() -> u64 {
+    SEEN.load(Ordering::SeqCst)
+}
+
 pub fn storage_point(name: &'static str) -> Result<(), OperationError> {
     let mode = MODE.load(Ordering::Relaxed);
     if mode == OFF {
